@@ -18,7 +18,7 @@ PROP = "C09"
 MANIFEST = dict(
     level="model_checking", design_ref="DESIGN.md 8 (C09), 7 (Streaming / Decoder)",
     technique="TLA+ refinement model of the streaming decode scheduler against the reference transport sequence (TLC, all packetisations/seek granularities/slices/loops) + TLC-enumerated settings and command histories run side by side on the real static and streaming sounds + TLC trace validation of the equality relation P_C09",
-    text="At model level TLC shows that the scheduler delivers exactly the reference frame sequence for every slice, loop region, start, packet-size sequence and early-landing seek within small bounds. At implementation level each TLC-generated or random scenario (length, slice, start, loop, rate 0/0.5/1/2, volume/panning/rate/pause/resume/stop histories with 0- or 2-chunk tweens, packet sizes, seek granularity) is executed on both implementations in lock step and TLC checks bit-equal output, equal states at every callback and positions within one frame until the end.",
+    text="At model level TLC shows that the scheduler delivers exactly the reference frame sequence for every slice, loop region, start, packet-size sequence and early-landing seek within small bounds. At implementation level each TLC-generated or random scenario (length, slice, start, loop, rate 0/0.5/1/2, volume/panning/rate/pause/resume/stop histories with 0- or 2-chunk tweens, packet sizes, seek granularity) is executed on both implementations in lock step and TLC checks bit-equal output, equal states at every callback and positions within one frame until the end. Generated settings include 12-frame rings, fades of several buffers, slices given as a re-slice (`lo..` replacing another slice) and start positions at or beyond the end.",
     note="Decoder kept ahead by letting the free-running decoder thread fill its ring before playback (looping streams: >= 2000 frames buffered; finite streams: thread finished). Command histories contain no seeks (as in the statement). Start positions after the loop end and inverted loop regions are not generated (left open by the documentation).")
 
 
